@@ -227,6 +227,49 @@ Section Broker.
     (h_status post = 500 /\ ampr = {| h_status := 500; h_body := [] |}).
   Proof. intros. apply amp_equals_post; auto. apply path_roundtrip. assumption. Qed.
 
+  (* every case of the two endpoints for one poll, without side conditions: the AMP endpoint never looks at the size
+     or the first byte; the POST endpoint refuses bodies over the limit and sends '{'-leading bodies to the legacy shim *)
+  Definition is_legacy_b (body : bytes) : bool := match body with 123 :: _ => true | _ => false end.
+
+  Lemma not_legacy_match : forall A (body : bytes) (x y : A), is_legacy_b body = false ->
+    match body with 123 :: _ => x | _ => y end = y.
+  Proof.
+    intros A body x y H. destruct body as [|c body']; [reflexivity|]. destruct c as [|pc]; [reflexivity|].
+    do 7 (destruct pc as [pc|pc|]; try reflexivity). discriminate.
+  Qed.
+
+  Lemma legacy_match : forall A (body : bytes) (x y : A), is_legacy_b body = true ->
+    match body with 123 :: _ => x | _ => y end = x.
+  Proof.
+    intros A body x y H. destruct body as [|c body']; [discriminate|]. destruct c as [|pc]; [discriminate|].
+    do 7 (destruct pc as [pc|pc|]; try discriminate). reflexivity.
+  Qed.
+
+  Lemma amp_post_cases : forall p body,
+    decode_path p = POk body ->
+    let post := post_handler client_offers legacy_post body in
+    let ampr := amp_handler client_offers armor decode_error_response (AMP_ROUTE ++ p) in
+    ampr = match client_offers body with
+           | Some r => {| h_status := 200; h_body := armor r |}
+           | None => {| h_status := 500; h_body := [] |}
+           end /\
+    (BROKER_READ_LIMIT < N.of_nat (length body) -> post = {| h_status := 400; h_body := [] |}) /\
+    (N.of_nat (length body) <= BROKER_READ_LIMIT -> is_legacy_b body = true -> post = legacy_post body) /\
+    (N.of_nat (length body) <= BROKER_READ_LIMIT -> is_legacy_b body = false ->
+       post = match client_offers body with
+              | Some r => {| h_status := 200; h_body := r |}
+              | None => {| h_status := 500; h_body := [] |}
+              end).
+  Proof.
+    intros p body Hd post ampr. subst post ampr. unfold amp_handler, post_handler. rewrite strip_prefix_app, Hd.
+    split; [destruct (client_offers body); reflexivity|]. split; [|split].
+    - intros H. apply N.ltb_lt in H. rewrite H. reflexivity.
+    - intros H L. replace (BROKER_READ_LIMIT <? N.of_nat (length body)) with false by (symmetry; apply N.ltb_ge; exact H).
+      apply legacy_match. exact L.
+    - intros H L. replace (BROKER_READ_LIMIT <? N.of_nat (length body)) with false by (symmetry; apply N.ltb_ge; exact H).
+      apply not_legacy_match. exact L.
+  Qed.
+
   (* an undecodable path is answered with the armored error response, status 200 *)
   Lemma amp_undecodable : forall p e r,
     decode_path p = PErr e -> decode_error_response = Some r ->
